@@ -71,6 +71,7 @@ def timeout(on, steps):
 def catalogue():
     C = {}
     C["seq2"] = (wf("m", [step("s1", [irq("a1"), irq("a2")]), step("s2", [irq("a3")])]), {})
+    C["two_steps"] = (wf("m", [step("s1", [irq("a1")]), step("s2", [irq("a2")])]), {})
     C["one_irq"] = (wf("m", [step("s1", [irq("a1")])]), {})
     C["if_else_first"] = (wf("m", [step("s1", branches=[
         branch("b2", [step("s21", [irq("a2")])], **{"else": True}),
@@ -128,6 +129,10 @@ def catalogue():
     ], catches=[catch([step("cs1", [irq("ca1")])])]), step("s2", [irq("a3")])]), {"c1": "$bool", "c2": "$bool"})
     C["catch_in_catch"] = (wf("m", [step("s1", [irq("a1")], catches=[catch([step("cs1", [irq("ca1", catches=[catch([step("cs2", [irq("ca2")])], on="e2")])])])]),
                                     step("s2", [irq("a3")])]), {})
+    # errors raised by the engine itself while an act is initialised (no such package / no `uses` at all)
+    C["init_err_own_catch"] = (wf("m", [step("s1", [{"id": "x1", "uses": "pkg.not.installed", "key": "k_x1", "catches": [catch([step("cs1", [irq("ca1")])])]}, irq("a2")]), step("s2", [irq("a3")])]), {})
+    C["init_err_step_catch"] = (wf("m", [step("s1", [irq("a1"), {"id": "x1", "uses": "", "key": "k_x1"}], catches=[catch([step("cs1", [irq("ca1")])])]), step("s2", [irq("a3")])]), {})
+    C["init_err_uncaught"] = (wf("m", [step("s1", [irq("a1"), {"id": "x1", "uses": "pkg.not.installed", "key": "k_x1", "catches": [catch([step("cs1", [irq("ca1")])], on="e1")]}]), step("s2", [irq("a3")])]), {})
     C["catch_none"] = (wf("m", [step("s1", [irq("a1"), irq("a2")]), step("s2", [irq("a3")])]), {})
     C["catch_all_and_code"] = (wf("m", [step("s1", [irq("a1", catches=[catch([step("cs1", [irq("ca1")])]), catch([step("cs2", [irq("ca2")])], on="e1")])]),
                                         step("s2", [irq("a3")])]), {})
